@@ -3,7 +3,7 @@ EXTENDS IntoAttr, Json
 CONSTANTS MaxFields, EmitCases
 VARIABLES st, phase
 Attrs == Content \cup {Top}
-Typed(a) == a.k = "top" \/ \E i \in 1..3 : Of(a, Forms[i]) = "typed"
+Typed(a) == a.k = "top" \/ \E i \in 1..3 : Of(a, Forms[i]) \in {"typed", "both"}
 Init == phase = 0 /\ st = [n |-> 0, skip |-> {}, sa |-> None, fk |-> 0, fa |-> Empty]
 Choose == /\ phase = 0 /\ phase' = 1
           /\ \E n \in 0..MaxFields, skip \in SUBSET (1..MaxFields), sa \in Attrs \cup {None}, fk \in 0..MaxFields, fa \in Attrs :
